@@ -399,3 +399,10 @@ def maybe_restored(rnd, scn, p=0.1):
     if rnd.random() < p:
         scn["device_restored"] = True
     return scn
+
+
+def maybe_moved(rnd, scn, p=0.1):
+    """With probability p the meshed Device is translated in place (by a few coherence lengths) before use."""
+    if rnd.random() < p:
+        scn["device_moved"] = {"dx": rnd.choice([0.0, 0.7, -1.3, 2.5]), "dy": rnd.choice([0.4, -0.9, 1.7])}
+    return scn
